@@ -821,7 +821,12 @@ def remap_by_types(
             elif isinstance(t_node.func, ast.Attribute):
                 # Do we know the type of the value?
                 found_type = self.lookup_type(t_node.func.value)
-                if found_type is not None:
+                # Nothing is declared for the methods of builtin values (str, int, ...): such a
+                # call is emitted as written.
+                if (
+                    found_type is not None
+                    and getattr(found_type, "__module__", None) != "builtins"
+                ):
                     t_node = self.process_method_call(t_node, found_type)
             elif isinstance(t_node.func, ast.Name):
                 if t_node.func.id in _global_functions:
